@@ -526,7 +526,7 @@ class CryptographyEngine(api.CryptographicEngine):
             if auth_additional_data is not None:
                 encryptor.authenticate_additional_data(auth_additional_data)
             cipher_text = encryptor.update(plain_text) + encryptor.finalize()
-        except (TypeError, ValueError) as e:
+        except (TypeError, ValueError, errors.UnsupportedAlgorithm) as e:
             raise exceptions.CryptographicFailure(
                 "The encryption failed: {0}".format(e)
             )
@@ -876,7 +876,8 @@ class CryptographyEngine(api.CryptographicEngine):
             if auth_additional_data is not None:
                 decryptor.authenticate_additional_data(auth_additional_data)
             plain_text = decryptor.update(cipher_text) + decryptor.finalize()
-        except (TypeError, ValueError, errors.InvalidTag) as e:
+        except (TypeError, ValueError, errors.InvalidTag,
+                errors.UnsupportedAlgorithm) as e:
             raise exceptions.CryptographicFailure(
                 "The decryption failed: {0}".format(
                     e if str(e) else type(e).__name__
